@@ -41,6 +41,32 @@ pub fn made_counts() -> Vec<(usize, usize)> {
 #[derive(Debug, Clone, Copy, PartialEq)]
 pub struct Dbg(pub i64);
 
+/// Every value is rendered as the empty string: several rows with the same (empty) label.
+#[derive(Clone, Copy, PartialEq)]
+pub struct Blank(pub i64);
+impl std::fmt::Display for Blank {
+    fn fmt(&self, _: &mut std::fmt::Formatter<'_>) -> std::fmt::Result {
+        Ok(())
+    }
+}
+impl LogVal for Blank {
+    fn render(&self) -> String {
+        format!("e{}", self.0)
+    }
+}
+
+/// `&str` items that are prefixes of one leaked buffer (they share their start address) where the
+/// values allow it; separately leaked strings otherwise.
+fn prefix_strs(v: &[String]) -> Vec<&'static str> {
+    let longest = v.iter().max_by_key(|s| s.len()).cloned().unwrap_or_default();
+    if v.iter().all(|s| longest.starts_with(s.as_str())) {
+        let buf: &'static str = Box::leak(longest.into_boxed_str());
+        v.iter().map(|s| &buf[..s.len()]).collect()
+    } else {
+        leak_strs(v)
+    }
+}
+
 pub trait LogVal {
     fn render(&self) -> String;
 }
@@ -168,6 +194,34 @@ fn args_runner<const ID: usize>() -> BenchEntryRunner {
                 || {
                     made();
                     a.ints.iter().map(|&v| Dbg(v)).collect::<Vec<Dbg>>()
+                },
+                |x| ToStringHelper(x).to_string(),
+                |b, x| arg_body(ID, b, x),
+            ),
+            // items with an empty rendering
+            b'e' => st.runner(
+                || {
+                    made();
+                    a.ints.iter().map(|&v| Blank(v)).collect::<Vec<Blank>>()
+                },
+                |x| ToStringHelper(x).to_string(),
+                |b, x| arg_body(ID, b, x),
+            ),
+            // Vec<&'static str> whose items are prefixes of one buffer
+            b'p' => st.runner(
+                || {
+                    made();
+                    prefix_strs(&a.strs)
+                },
+                |x| ToStringHelper(x).to_string(),
+                |b, x| arg_body(ID, b, x),
+            ),
+            // &'static [&'static str] whose items are prefixes of one buffer
+            b'q' => st.runner(
+                || {
+                    made();
+                    let s: &'static [&'static str] = Box::leak(prefix_strs(&a.strs).into_boxed_slice());
+                    s
                 },
                 |x| ToStringHelper(x).to_string(),
                 |b, x| arg_body(ID, b, x),
